@@ -106,6 +106,14 @@ def gen_network(rng, size=None, finite_only=False, genes=True, max_mets=6, max_r
             budget -= 1
     while len(rxns) < 2:                  # never an empty network
         add({rng.choice(mets): rng.choice([F(1), F(-1)])}, kind="DM_")
+    # some networks have part of their reactions written the other way round (same fluxes up to sign): this is
+    # what makes reverse-only reactions (lb < 0, ub <= 0) that actually carry flux
+    if rng.random() < 0.3:
+        for r in rxns:
+            if rng.random() < 0.4:
+                r["st"] = {m: str(-F(c)) for m, c in r["st"].items()}
+                lo, hi = num(r["lb"]), num(r["ub"])
+                r["lb"], r["ub"] = show(None if hi is None else -hi, neg=True), show(None if lo is None else -lo)
     # objective
     k = 1 if rng.random() < 0.75 else 2
     for r in rng.sample(rxns, min(k, len(rxns))):
